@@ -92,7 +92,7 @@ class SymExec:
                 return E("const", None, "fn", c.get("def"), c)
             if c.get("closure"):
                 return E("closure", c["closure"], [])
-            return E("const", c.get("int"), c.get("ty"), c.get("str"), c)
+            return E("const", c.get("int"), c.get("ty"), c.get("str") if c.get("float") is None else c.get("float"), c)
         return self.read_place(env, op_place(o))
 
     def rvalue(self, env, rv):
